@@ -303,7 +303,7 @@ func (i *InsertStatement) Format(opts FormatOptions) string {
 	if i.Query != nil {
 		sb.WriteString(f.clauseSep())
 		if fq, ok := i.Query.(Formatter); ok {
-			sb.WriteString(fq.Format(opts))
+			sb.WriteString(fq.Format(nestedOptions(opts)))
 		} else {
 			sb.WriteString(stmtSQL(i.Query))
 		}
@@ -544,7 +544,7 @@ func (s *SetOperation) Format(opts FormatOptions) string {
 
 	if s.Left != nil {
 		if ls, ok := s.Left.(Formatter); ok {
-			sb.WriteString(ls.Format(opts))
+			sb.WriteString(ls.Format(nestedOptions(opts)))
 		} else {
 			sb.WriteString(stmtSQL(s.Left))
 		}
@@ -558,7 +558,7 @@ func (s *SetOperation) Format(opts FormatOptions) string {
 	sb.WriteString(f.clauseSep())
 	if s.Right != nil {
 		if rs, ok := s.Right.(Formatter); ok {
-			sb.WriteString(rs.Format(opts))
+			sb.WriteString(rs.Format(nestedOptions(opts)))
 		} else {
 			sb.WriteString(stmtSQL(s.Right))
 		}
@@ -709,7 +709,7 @@ func (c *CreateViewStatement) Format(opts FormatOptions) string {
 	sb.WriteString(f.kw("AS"))
 	sb.WriteString(f.clauseSep())
 	if qs, ok := c.Query.(Formatter); ok {
-		sb.WriteString(qs.Format(opts))
+		sb.WriteString(qs.Format(nestedOptions(opts)))
 	} else {
 		sb.WriteString(stmtSQL(c.Query))
 	}
@@ -759,7 +759,7 @@ func (c *CreateMaterializedViewStatement) Format(opts FormatOptions) string {
 	sb.WriteString(f.kw("AS"))
 	sb.WriteString(f.clauseSep())
 	if qs, ok := c.Query.(Formatter); ok {
-		sb.WriteString(qs.Format(opts))
+		sb.WriteString(qs.Format(nestedOptions(opts)))
 	} else {
 		sb.WriteString(stmtSQL(c.Query))
 	}
@@ -899,9 +899,17 @@ func formatStmt(s Statement, opts FormatOptions) string {
 		return ""
 	}
 	if fs, ok := s.(Formatter); ok {
-		return fs.Format(opts)
+		return fs.Format(nestedOptions(opts))
 	}
 	return stmtSQL(s)
+}
+
+// nestedOptions returns the options for a statement that is part of another
+// one (a sub-query, a CTE body, an arm of a set operation, the query of an
+// INSERT or a view): only the outermost statement gets the final semicolon.
+func nestedOptions(opts FormatOptions) FormatOptions {
+	opts.AddSemicolon = false
+	return opts
 }
 
 // Format returns formatted SQL for a MergeStatement.
@@ -1147,7 +1155,7 @@ func formatWith(w *WithClause, f *formatter) string {
 		}
 		s += f.kw("AS") + " ("
 		if qs, ok := cte.Statement.(Formatter); ok {
-			s += qs.Format(f.opts)
+			s += qs.Format(nestedOptions(f.opts))
 		} else {
 			s += stmtSQL(cte.Statement)
 		}
